@@ -77,6 +77,11 @@ def run(ctx):
     for i in range(nrand):
         cap = rng.choice([1, 1, 2, 2, 3, 4, 5, 7, 8, 16, 19, 64])
         scripts.append(dict(cap=cap, ops=gen_ops(rng, rng.randint(10, 60 if tier == "quick" else 250))))
+    # concurrent use under the ring's own mutex: CopyRecent against a producer that fills Current() and moves on
+    nconc = 0
+    for cap in ([2, 3] if tier == "quick" else [2, 2, 3, 4, 8]):
+        for side in ([64, 256] if tier == "quick" else [16, 64, 256, 512]):
+            scripts.append(dict(cap=cap, ops=[], conc=(3000 if tier == "quick" else 20000), side=side)); nconc += 1
     trace = drive(ctx, scripts)
     events = vlib.read_ndjson(trace)
     viol, nev = judge(ctx, trace, 64)
@@ -109,7 +114,8 @@ def run(ctx):
     coverage = dict(states=d.get("distinct", 0), transitions=d.get("generated", 0),
                     traces_validated_against_impl=len(scripts), samples=[dict(script=scripts[0], trace=events[:6])],
                     exhaustive=True, design=dict(MaxCap=mc, MaxTag=mt), graphs=graphs, cover_scripts=ncover,
-                    random_scripts=nrand, events_judged=nev, marks=marks, resets=resets, scripts_that_wrap=wraps,
+                    random_scripts=nrand, concurrent_scripts=nconc,
+                    concurrent_copyrecent_calls=sum(e.get("calls", 0) for e in events if e["ev"] == "conc"), events_judged=nev, marks=marks, resets=resets, scripts_that_wrap=wraps,
                     evaluations=len(scripts), distinct_nontrivial=distinct,
                     rule="transition cover of RingReplay graphs (cap 1..%d) + seeded random op sequences (cap up to 64); "
                          "non-trivial = contains a set-as-oldest and at least one move; distinct by (cap, ops)" % caps[-1],
